@@ -3,6 +3,7 @@ import json
 
 from core import Property, Stream
 import reports_common as rc
+from c01_e2e import E2EModelStream
 
 CATS = ("missing", "unused", "bad", "deprecated", "noext", "nocop", "nolic", "readerr")
 
@@ -58,7 +59,7 @@ class CellStream(VerdictOracle, Stream):
 
 PROPERTY = Property(
     pid="C01",
-    streams=[TreeStream(), CellStream()],
+    streams=[TreeStream(), CellStream(), E2EModelStream()],
     table_roundtrip=rc.table_roundtrip,
     assumptions=[
         "the model receives the abstract project (per covered file: readable?, any copyright line?, identifiers of each expression; the "
